@@ -1,7 +1,8 @@
 (* C15 property theorems (statements only): explicit first-order form. *)
-From Coq Require Import Reals.
+From Coq Require Import Reals List.
 From Coquelicot Require Import Coquelicot.
 From P Require Import C15_bell C15_gen C15_proofs_explicit.
+Import ListNotations.
 Open Scope R_scope.
 
 Theorem explicit_form_1 : forall b0 b1 fx y0 y1 : R, b1 <> 0 ->
